@@ -372,7 +372,11 @@ func (s *strictStub) UnmarshalJSON(data []byte) error {
 }
 
 func (fi *FuncInfo) argWrapper() func(reflect.Value) any {
-	strict := fi.strictFields && fi.Argument != nil && !fi.Argument.Implements(strictType)
+	// A parameter type that declares strictness itself (DisallowUnknownFields on
+	// the type or its pointer) needs the strict stub too: the array stub hides
+	// the target, and with it that method, from Request.UnmarshalParams.
+	strict := fi.Argument != nil && (fi.strictFields ||
+		fi.Argument.Implements(strictType) || reflect.PointerTo(fi.Argument).Implements(strictType))
 	names := fi.posNames // capture so the wrapper does not pin fi
 	array := len(names) != 0 && fi.allowArray
 	switch {
